@@ -147,6 +147,76 @@ theorem C15_layout_retransmit (b0 b1 b2 b3 b4 b5 b6 b7 : UInt8) (rest : Bytes) :
   simp only [isSrtDataRetransmitS]
   by_cases h1 : b0.toNat < 128 <;> by_cases h2 : b4.toNat / 4 % 2 = 1 <;> simp [h1, h2] <;> omega
 
+/-! ### The same two layouts on the CHECKED decoders (the forms the driver runs)
+
+`C15_layout_data_seq` / `C15_layout_retransmit` above are about the pattern-matching "spec" forms
+`…S` used by the rest of the model.  The differential run executes the checked forms
+`getSrtSequenceNumber` / `isSrtDataRetransmit` (every index a bounds-checked read, length guards
+regenerated from the source).  The statements below are about those, for EVERY byte string, with the
+length guard explicit. -/
+
+/-- Checked decoder, every byte string: the sequence number of a data packet is the big-endian first
+word, present iff the packet has at least 4 bytes and the top bit of byte 0 is clear; never a panic. -/
+theorem C15_layout_data_seq_checked (b : Bytes) :
+    getSrtSequenceNumber b =
+      .ok (if h : 4 ≤ b.length then
+             (if (b[0]'(by omega)).toNat < 128
+              then some (be32 (b[0]'(by omega)) (b[1]'(by omega)) (b[2]'(by omega)) (b[3]'(by omega)))
+              else none)
+           else none) := by
+  rw [getSrtSequenceNumber_eq]
+  match b with
+  | [] => simp [getSrtSequenceNumberS]
+  | [_] => simp [getSrtSequenceNumberS]
+  | [_, _] => simp [getSrtSequenceNumberS]
+  | [_, _, _] => simp [getSrtSequenceNumberS]
+  | a :: c :: d :: e :: rest =>
+    rw [C15_layout_data_seq]
+    simp
+
+/-- Fewer than 4 bytes ⇒ no sequence number (the guard `buf.len() < 4`). -/
+theorem C15_short_no_seq (b : Bytes) (h : b.length < 4) : getSrtSequenceNumber b = .ok none := by
+  rw [C15_layout_data_seq_checked, dif_neg (by omega)]
+
+/-- Checked decoder, every byte string: a packet is a retransmitted data packet iff it has at least
+8 bytes, the top bit of byte 0 is clear and bit 2 of byte 4 is set; never a panic. -/
+theorem C15_layout_retransmit_checked (b : Bytes) :
+    isSrtDataRetransmit b =
+      .ok (if h : 8 ≤ b.length then
+             (decide ((b[0]'(by omega)).toNat < 128) && decide ((b[4]'(by omega)).toNat / 4 % 2 = 1))
+           else false) := by
+  rw [isSrtDataRetransmit_eq]
+  match b with
+  | [] => simp [isSrtDataRetransmitS]
+  | [_] => simp [isSrtDataRetransmitS]
+  | [_, _] => simp [isSrtDataRetransmitS]
+  | [_, _, _] => simp [isSrtDataRetransmitS]
+  | [_, _, _, _] => simp [isSrtDataRetransmitS]
+  | [_, _, _, _, _] => simp [isSrtDataRetransmitS]
+  | [_, _, _, _, _, _] => simp [isSrtDataRetransmitS]
+  | [_, _, _, _, _, _, _] => simp [isSrtDataRetransmitS]
+  | b0 :: b1 :: b2 :: b3 :: b4 :: b5 :: b6 :: b7 :: rest =>
+    rw [C15_layout_retransmit]
+    simp
+
+/-- **Fewer than 8 bytes ⇒ not a retransmit**, whatever the bytes are — in particular a 5-, 6- or
+7-byte datagram whose byte 0 has a clear top bit and whose byte 4 has bit 2 set is NOT reported as a
+retransmission (the guard is `buf.len() >= 8`, not `> 4`). -/
+theorem C15_short_not_retransmit (b : Bytes) (h : b.length < 8) : isSrtDataRetransmit b = .ok false := by
+  rw [C15_layout_retransmit_checked, dif_neg (by omega)]
+
+/-- Non-vacuity: an 8-byte data packet with the flag set is a retransmit with sequence number
+0x01020304; the same first 7 bytes are not (too short) but still carry the sequence number; a control
+packet (top bit set) has neither; 3 bytes have no sequence number. -/
+example :
+    isSrtDataRetransmit [1, 2, 3, 4, 0x04, 0, 0, 0] = .ok true ∧
+    getSrtSequenceNumber [1, 2, 3, 4, 0x04, 0, 0, 0] = .ok (some 0x01020304) ∧
+    isSrtDataRetransmit [1, 2, 3, 4, 0x04, 0, 0] = .ok false ∧
+    getSrtSequenceNumber [1, 2, 3, 4, 0x04, 0, 0] = .ok (some 0x01020304) ∧
+    isSrtDataRetransmit [0x80, 2, 3, 4, 0x04, 0, 0, 0] = .ok false ∧
+    getSrtSequenceNumber [0x80, 2, 3, 4, 0x04, 0, 0, 0] = .ok none ∧
+    getSrtSequenceNumber [1, 2, 3] = .ok none := by decide
+
 theorem C15_layout_reg (id : Bytes) (h : id.length = 256) :
     (createReg1 id).length = 258 ∧ (createReg2 id).length = 258 ∧
     getPacketTypeS (createReg1 id) = some 0x9200 ∧ getPacketTypeS (createReg2 id) = some 0x9201 ∧
